@@ -125,6 +125,7 @@ inductive St where
   | wt (c : WTinyLfu K V)
   | tiny (t : TinyLfu)
   | sam (s : Sampled)
+  | wtsz (w q p : Nat)     -- W-TinyLFU built through a constructor that fixes the key hasher: configuration only
 
 def St.fmt : St → String
   | .raw c => fmtRaw c
@@ -134,6 +135,7 @@ def St.fmt : St → String
   | .wt c => fmtWT c
   | .tiny t => fmtTiny t
   | .sam s => fmtSampled s
+  | .wtsz w q p => s!"W\{cap={w}} P\{cap={p}} Q\{cap={q}}"
 
 structure World where
   main : St
@@ -678,6 +680,15 @@ def construct (comp : String) (ps env : List String) : Ctor :=
         | .ok (.ok t), some m => .ok { main := .wt { est := t, window := { cap := w, items := [] }, main := m } }
         | _, none => .err "InvalidSize"
     | _, _, _, _, _ => .bad "wtinylfu params"
+  | "wtsizes" =>
+    match getNat ps "wcap", getNat ps "qcap", getNat ps "pcap", getNat ps "samples" with
+    | some w, some q, some p, some samples =>
+      if w = 0 then .err "InvalidWindowCacheSize"
+      else if q = 0 then .err "InvalidProtectedCacheSize"
+      else if p = 0 then .err "InvalidProbationaryCacheSize"
+      else if samples = 0 then .err "InvalidSamples"
+      else .ok { main := .wtsz w q p }
+    | _, _, _, _ => .bad "wtsizes params"
   | "sampled" =>
     match (getParam ps "max").bind parseInt, getNat ps "samples" with
     | some mc, some samples => .ok { main := .sam (Sampled.new mc samples) }
@@ -724,6 +735,17 @@ def stepSt (w : World) (op : String) (sargs : List String) (implOut : String) : 
   | .wt c => stepWT c w.kh op a
   | .tiny t => stepTiny t w.kh op sargs
   | .sam s => stepSam s op sargs implOut
+  | .wtsz wc q p =>
+    let done (res : String) : Ans := .ok { res := res, st := .wtsz wc q p }
+    match op, sargs with
+    | "len", [] => done "0"
+    | "cap", [] => done (toString (wc + (q + p)))
+    | "isempty", [] => done "true"
+    | "wcap", [] => done (toString wc)
+    | "mcap", [] => done (toString (q + p))
+    | "wlen", [] => done "0"
+    | "mlen", [] => done "0"
+    | _, _ => .bad "wtsizes op"
 
 def St.sizes : St → Option String
   | .raw c => some s!"{c.len},{c.cap},{fmtBool c.isEmpty}"
